@@ -465,7 +465,7 @@ and the next token starts at or after `b` -/
 def TokChain (src : List Rune) : List Rune → List Token → Prop
   | _, [] => True
   | lo, t :: ts => ∃ a b, lo <+: a ∧ a <+: b ∧ b <+: src ∧ t.start = posAfter a ∧
-      t.end_ = posAfter b ∧ TokChain src b ts
+      t.end_ = posAfter b ∧ t.ty ≠ .eof ∧ TokChain src b ts
 
 theorem TokChain.mono {src lo lo' : List Rune} {ts : List Token} (h : TokChain src lo ts)
     (hl : lo' <+: lo) : TokChain src lo' ts := by
@@ -578,12 +578,89 @@ theorem allTokensLoop_spec (cls : Cls) (ff : Bool) (src : List Rune) :
           | toks out =>
             obtain ⟨h0, new, hn1, hn2⟩ := this
             refine ⟨h0, s.tok :: new, by simp [hn1], ?_⟩
-            refine ⟨p0 ++ a, p0 ++ b, List.prefix_append _ _, ?_, hbsrc, ?_, ?_, hn2.mono hbpre⟩
+            refine ⟨p0 ++ a, p0 ++ b, List.prefix_append _ _, ?_, hbsrc, ?_, ?_, hty, hn2.mono hbpre⟩
             · obtain ⟨t, rfl⟩ := ab
               exact ⟨t, by simp⟩
             · rw [ts, hnxt, posAfter_append]
             · rw [te, hnxt, posAfter_append]
           | errs out => exact this
           | nofuel => exact this
+
+
+/-- `AllTokens` terminates (the fuel is never exhausted); its tokens form a chain in the source and
+its errors are positioned inside the source; an error result is never empty. -/
+theorem allTokens_spec (cls : Cls) (ff : Bool) (src : List Rune) :
+    match allTokens cls ff src with
+    | .toks ts => TokChain src [] ts
+    | .errs es => ∀ e ∈ es, InFile src e.pos
+    | .nofuel => False := by
+  unfold allTokens
+  have := allTokensLoop_spec cls ff src (src.length + 2) Cur.init src [] [] [] (by omega)
+    (fun _ => ⟨rfl, rfl⟩)
+  generalize allTokensLoop cls ff (src.length + 2) Cur.init src [] [] = res at this ⊢
+  cases res with
+  | toks out =>
+    obtain ⟨_, new, h1, h2⟩ := this
+    simp at h1; subst h1; exact h2
+  | errs out =>
+    obtain ⟨new, h1, h2⟩ := this
+    simp at h1; subst h1; exact h2
+  | nofuel => exact this
+
+theorem allTokensLoop_errs_ne_nil (cls : Cls) (ff : Bool) :
+    ∀ (fuel : Nat) (c : Cur) (rest : List Rune) (toks : List Token) (errs out : List LexErr),
+      allTokensLoop cls ff fuel c rest toks errs = .errs out → out ≠ [] := by
+  intro fuel
+  induction fuel with
+  | zero => intro c rest toks errs out h; unfold allTokensLoop at h; cases h
+  | succ fuel ih =>
+    intro c rest toks errs out h
+    unfold allTokensLoop at h
+    simp only [] at h
+    split at h
+    · split at h
+      · cases h; simp
+      · split at h
+        · cases h; simp
+        · exact ih _ _ _ _ _ h
+    · split at h
+      · split at h
+        · cases h
+        · rename_i hne
+          cases h
+          intro he; apply hne; simp [he]
+      · exact ih _ _ _ _ _ h
+
+/-- consequences of a token chain: order and placement -/
+theorem TokChain.props {src lo : List Rune} {ts : List Token} (h : TokChain src lo ts) :
+    ts.Pairwise (fun t u => t.end_ ≤ u.start) ∧
+    (∀ t ∈ ts, posAfter lo ≤ t.start ∧ t.start ≤ t.end_ ∧ InFile src t.start ∧ InFile src t.end_ ∧
+      t.ty ≠ .eof) := by
+  induction ts generalizing lo with
+  | nil => exact ⟨List.Pairwise.nil, fun t h => by cases h⟩
+  | cons t ts ih =>
+    obtain ⟨a, b, h1, h2, h3, h4, h5, h6, h7⟩ := h
+    obtain ⟨p1, p2⟩ := ih h7
+    refine ⟨List.pairwise_cons.mpr ⟨?_, p1⟩, ?_⟩
+    · intro u hu
+      rw [h5]; exact (p2 u hu).1
+    · intro u hu
+      rcases List.mem_cons.mp hu with rfl | hu
+      · refine ⟨by rw [h4]; exact posAfter_mono h1, by rw [h4, h5]; exact posAfter_mono h2,
+          ⟨a, h2.trans h3, h4⟩, ⟨b, h3, h5⟩, h6⟩
+      · obtain ⟨q1, q2⟩ := p2 u hu
+        exact ⟨Pos.le_trans (posAfter_mono (h1.trans h2)) q1, q2⟩
+
+
+/-- every `NextToken` call on non-empty input consumes at least one rune -/
+theorem nextToken_progress (cls : Cls) (c : Cur) (r : Rune) (rs : List Rune) :
+    (nextToken cls c (r :: rs)).rest.length < (r :: rs).length := by
+  obtain ⟨pre, a, b, e1, _, _, hcur, _, _⟩ := nextToken_spec cls c (r :: rs)
+  generalize nextToken cls c (r :: rs) = s at *
+  rcases hcur with ⟨g1, _, _⟩ | ⟨g1, _⟩
+  · have : (r :: rs).length = pre.length + s.rest.length := by rw [e1]; simp
+    have : pre.length ≠ 0 := fun e => g1 (List.eq_nil_of_length_eq_zero e)
+    omega
+  · rw [g1]; simp
 
 end J5V.Bcl
